@@ -86,6 +86,7 @@ def rand_term(rng: random.Random, depth: int, meta=True, notation=0.35, substs=T
 
 
 UNSORTED_KEYS = 0.12
+IDENTITY_WRAP = 0.0       # share of nodes (leaves included) spelled through an identity-like notation; checks opt in (rp.IDENTITY_WRAP = 0.03 in their shard)
 
 
 def fold(e, rng: random.Random, p=0.7, max_layers=4, _layer=0, stats=None):
@@ -93,6 +94,14 @@ def fold(e, rng: random.Random, p=0.7, max_layers=4, _layer=0, stats=None):
     expansion of a notation definition matches structurally."""
     P = repo.P()
     T = table()
+    if p > 0 and _layer < max_layers and e[0] not in ('es', 'ss') and rng.random() < IDENTITY_WRAP:
+        # an identity-like notation (its definition is a bare, unconstrained metavariable) applied to e: the application expands to e,
+        # whatever e is - a metavariable, a variable, a symbol or a compound pattern
+        ident = [n for key, n, fam, de, sf in T.items if de == tb.mv(0) and n.arity == 1]
+        if ident:
+            if stats is not None:
+                stats['identity_wrap'] = stats.get('identity_wrap', 0) + 1
+            return rng.choice(ident)(fold(e, rng, p, max_layers, _layer + 1, stats))
     if _layer < max_layers and rng.random() < p and e[0] not in ('ev', 'sv', 'sy', 'mv', 'es', 'ss'):
         items = T.items[:]
         rng.shuffle(items)
